@@ -40,7 +40,7 @@ RESTART = ['vpH_raw_Restart_2']
 ELECTION = ['vpH_raw_Election_sync', 'vpH_raw_Election_async']
 ACK = ['vpH_ack_ApplyResp_L', 'vpH_ack_ApplyResp_F', 'vpH_ack_ApplyResp_L_gone', 'vpH_ack_AppendResp_F', 'vpH_ack_AppendResp_L', 'vpH_ack_AppendResp_C']
 TICK = ['vpH_tick_CheckQuorum_et2', 'vpH_tick_CheckQuorum_inactive_et2', 'vpH_tick_CheckQuorum_singleton', 'vpH_tick_Election_F', 'vpH_tick_Election_C', 'vpH_tick_Election_P', 'vpH_tick_TransferAbort_et2']
-LOG = ['vpH_log_storageAppend_2_2', 'vpH_log_storageCompact_2', 'vpH_log_storageSnapshots_2', 'vpH_log_storageQueries_2', 'vpH_log_queries_1_1', 'vpH_log_unstableOps_1_2', 'vpH_log_maybeAppend_1_1_2']
+LOG = ['vpH_log_maybeAppend_0_2_1', 'vpH_log_storageAppend_2_2', 'vpH_log_storageCompact_2', 'vpH_log_storageSnapshots_2', 'vpH_log_storageQueries_2', 'vpH_log_queries_1_1', 'vpH_log_unstableOps_1_2', 'vpH_log_maybeAppend_1_1_2']
 LOG_T = ['vpH_log_storageAppend_3_3', 'vpH_log_storageCompact_3', 'vpH_log_storageSnapshots_2', 'vpH_log_storageQueries_3', 'vpH_log_queries_2_2', 'vpH_log_unstableOps_2_2', 'vpH_log_maybeAppend_2_2_2']
 CONF = ['vpH_conf_Propose_2', 'vpH_conf_Propose_2_joint', 'vpH_conf_Apply_L', 'vpH_conf_Apply_F']
 SIZE = ['vpH_size_L_MsgHeartbeatResp', 'vpH_size_L_MsgProp', 'vpH_size_L_MsgAppResp']
@@ -50,6 +50,10 @@ DET = ['vpH_det_F_MsgVote', 'vpH_det_F_MsgApp', 'vpH_det_F_MsgHup', 'vpH_det_C_M
 DET_T = DET + ['vpH_det_F_MsgSnap', 'vpH_det_L_MsgAppResp']
 
 ALL_STEP = VOTE + VRESP + HUP + HB + APP + SNAP + PROP + LEAD + LEAD_HBR + SMALL
+# quick-tier stand-ins for the three largest leader cells
+LEAD_HBR_Q = ['vpH_step_L_MsgHeartbeatResp_from2']
+LEAD_ACK_Q = ['vpH_step_L_MsgAppResp_from1', 'vpH_step_L_MsgAppResp_from2_lean']
+PROP_Q = step('FCP', 'MsgProp') + ['vpH_step_L_MsgProp_lean']
 
 specs = {}
 
@@ -94,7 +98,7 @@ prop("C13",
 
 # ---------------- step-obligation properties ----------------
 prop("C07",
-     H(VOTE + VRESP + HUP + HB + APP[:1] + SNAP[:1] + PROP + LEAD + SMALL, ["H1/", "H2/"]) + H(RAW[:1] + RAW[2:4], ["H3/"]) + H(RESTART, ["H4/"]) + H(CONF[2:], ["H1/"]),
+     H(VOTE + VRESP + HUP + HB + APP[:1] + SNAP[:1] + PROP_Q + LEAD + LEAD_ACK_Q[:1] + SMALL, ["H1/", "H2/"]) + H(RAW[:1] + RAW[2:4], ["H3/"]) + H(RESTART, ["H4/"]) + H(CONF[2:], ["H1/"]),
      H(T(ALL_STEP + LEAD_ACK + APP_L + SNAP_L), ["H1/", "H2/"]) + H(RAW, ["H3/"]) + H(['vpH_raw_Restart_3'], ["H4/"]) + H(ACK + CONF[2:], ["H1/", "H2/"]),
      BQ + BT + OUT,
      "H1: term and commit never decrease and the vote changes at most once per term, on every (role x message type) cell; H2: every emitted message carries the current term (grants echo the request term, pre-vote requests Term+1), never one below a term already exposed; H3: Ready exposes the HardState iff it changed and remembers it; H4: restart restores (term, vote, commit) from storage.")
@@ -112,13 +116,13 @@ prop("C17",
      "K1 a pre-vote request changes nothing but the reply, K2 with PreVote the term rises for a campaign only after a pre-vote quorum or on a leader-initiated transfer, K3 the leader lease, K4 CheckQuorum steps down iff no joint-majority was recently active, K5 a silent leader steps down within two election timeouts.")
 
 prop("C03",
-     H(APP, ["M1/", "M5/"]) + H(LEAD + LEAD_HBR + PROP[3:], ["M2/", "M3/"]) + H(['vpH_log_maybeAppend_1_1_2'], ["M1/"]) + H(ACK[3:5], ["M4/"]),
+     H(APP, ["M1/", "M5/"]) + H(LEAD + LEAD_HBR_Q + LEAD_ACK_Q + PROP_Q[3:], ["M2/", "M3/"]) + H(['vpH_log_maybeAppend_1_1_2', 'vpH_log_maybeAppend_0_2_1'], ["M1/", "M4/"]) + H(ACK[3:5], ["M4/"]),
      H(T(APP + APP_L), ["M1/", "M5/"]) + H(T(LEAD + LEAD_HBR + LEAD_ACK + PROP[3:]), ["M2/", "M3/"]) + H(['vpH_log_maybeAppend_2_2_2'], ["M1/"]) + H(ACK[3:], ["M4/"]),
      BQ + BT + OUT,
      "M1 follower append (slice present afterwards, entries before the first conflict kept, truncation only at a conflict), M2 every MsgApp carries consecutive log entries anchored at a log position, M3 a leader never changes its own log except by appending entries of its term, M4 storage acknowledgements never change the logical log, M5 rejection hints.")
 
 prop("C06",
-     H(LEAD + LEAD_HBR + CONF[2:3], ["Q1/", "Q2/", "Q4/"]) + H(APP[:1] + HB, ["Q3/", "Q4/", "Q5/"]) + H(['vpH_t_TrackerCommitted_3'], ["Q1/"]),
+     H(LEAD + LEAD_HBR_Q + LEAD_ACK_Q + CONF[2:3], ["Q1/", "Q2/", "Q4/"]) + H(APP[:1] + HB, ["Q3/", "Q4/", "Q5/"]) + H(['vpH_t_TrackerCommitted_3'], ["Q1/"]),
      H(T(LEAD + LEAD_HBR + LEAD_ACK), ["Q1/", "Q2/", "Q4/"]) + H(CONF[2:3], ["Q1/"]) + H(T(APP + HB), ["Q3/", "Q4/", "Q5/"]) + H(['vpH_t_TrackerCommitted_3', 'vpH_log_maybeAppend_2_2_2'], ["Q1/", "Q5/"]),
      BQ + BT + OUT,
      "Q1 the leader's commit index only advances to an own-term entry matched by a joint majority, Q2 Match rises only through a non-reject MsgAppResp of the current term from that peer, Q3 acknowledgements are truthful, Q4 heartbeats carry min(Match, commit), Q5 follower commit = max(old, min(leader commit, end of slice)); Q6 commit <= last index is part of Inv.")
@@ -136,7 +140,7 @@ prop("C01",
      "No obligation of its own: a selection of the step obligations the state-machine-safety argument rests on (committed prefix immutable, the apply stream is the contiguous committed log, follower append, leader append-only, quorum-backed commit, truthful acknowledgements, vote rule, election quorum, snapshot install). The cluster-wide statement is their composition and is not mechanised.")
 
 prop("C05",
-     H(APP[:1] + VOTE[:1] + SNAP[:1] + PROP[3:] + HUP[:1] + VRESP[:1], ["D1/"]) + H(RAW[:1] + RAW[2:3], ["D2/", "W5/"]) + H(RAW[3:4] + RAW[5:6], ["D3/"]) + H(RAW_ADV[:1] + RAW_ADV[2:], ["D2/", "D4/", "W5/"]) + H(RESTART, ["H4/", "A4/"]),
+     H(APP[:1] + VOTE[:1] + SNAP[:1] + PROP_Q[3:] + HUP[:1] + VRESP[:1], ["D1/"]) + H(RAW[:1] + RAW[2:3], ["D2/", "W5/"]) + H(RAW[3:4] + RAW[5:6], ["D3/"]) + H(RAW_ADV[:1] + RAW_ADV[2:], ["D2/", "D4/", "W5/"]) + H(RESTART, ["H4/", "A4/"]),
      H(T(ALL_STEP + LEAD_ACK), ["D1/"]) + H(RAW, ["D2/", "D3/", "W5/"]) + H(RAW_ADV, ["D2/", "D4/", "W5/"]) + H(['vpH_raw_Restart_3'], ["H4/", "A4/"]),
      BQ + BT + "Ready cells: <= 1 pending ordinary message, <= 2 pending promises (self-addressed or not), optional read state; the synchronous cells persist the Ready with the real MemoryStorage and compare storage with the logical log. Crash points: batch boundaries only (DESIGN C05-D5). " + OUT,
      "D1 promises (MsgAppResp, MsgVoteResp, MsgPreVoteResp) and self-addressed messages are only ever queued behind persistence, D2 a synchronous Ready carries everything unstable and, once persisted, storage covers the whole logical log and the HardState behind every promise, D3 an asynchronous Ready releases promises only as Responses of the MsgStorageAppend, D4 the leader's own Match rises only through its persisted self-acknowledgement.")
@@ -148,7 +152,7 @@ prop("C08",
      "A1 Ready hands out exactly the contiguous committed entries after `applying` (maximal prefix within the size quota, only stable entries in async mode), A2 applied/applying never move back and consecutive batches abut, A3 nothing is handed out while a snapshot is pending, A4 restart resumes right after Config.Applied, A5 apply acknowledgements.")
 
 prop("C09",
-     H(SNAP, ["S1/"]) + H(LEAD[:1] + LEAD_HBR + step('L', 'MsgSnapStatus'), ["S3/", "S4/", "L4/no-append"]) + H(RAW[:1], ["S2/"]) + H(ACK[3:4], ["S2/"]) + H(['vpH_log_unstableOps_1_2'], ["S1/"]),
+     H(SNAP, ["S1/"]) + H(LEAD[:1] + LEAD_HBR_Q + LEAD_ACK_Q[1:] + step('L', 'MsgSnapStatus'), ["S3/", "S4/", "L4/no-append"]) + H(RAW[:1], ["S2/"]) + H(ACK[3:4], ["S2/"]) + H(['vpH_log_unstableOps_1_2'], ["S1/"]),
      H(T(SNAP + SNAP_L), ["S1/"]) + H(T(LEAD + LEAD_HBR + LEAD_ACK), ["S3/", "S4/", "L4/no-append"]) + H(RAW[:1] + RAW[3:4] + RAW_ADV[:1], ["S2/"]) + H(ACK[3:4], ["S2/"]) + H(['vpH_log_unstableOps_2_2'], ["S1/"]),
      BQ + BT + "MsgSnap cells: snapshot index/term symbolic, ConfState from the shape menu (10 shapes), pending unstable snapshot allowed. " + OUT,
      "S1 a snapshot at or below the commit index, without this node, or matching the log changes nothing but (for a match) the commit index; otherwise it replaces the log, commit index and configuration exactly; S2 persistence handshake; S3 the leader sends the storage snapshot only for a compacted prefix and tracks it; S4 snapshot status handling.")
@@ -166,7 +170,7 @@ prop("C11",
      "R1 admission (postponed until an own-term commit, queued with the commit index at receipt, position broadcast), R2 release only for the prefix confirmed by a joint majority of acknowledgements, R2b the singleton shortcut only when the sole voter is this node and it has committed in its term, R3 each answer carries its recorded index and own context, R4 resets/echo, R5 follower side.")
 
 prop("C16",
-     H(['vpH_log_limitSize_3'] + TRACK, ["C16/", "I-prog/"]) + H(SIZE[:2], ["L2/", "L4/", "L5/"]) + H(LEAD[:1] + PROP[3:], ["L4/", "L5/"]) + H(ACK[:1], ["L5/"]),
+     H(['vpH_log_limitSize_3'] + TRACK, ["C16/", "I-prog/"]) + H(SIZE[:2], ["L2/", "L4/", "L5/"]) + H(LEAD[:1] + LEAD_ACK_Q[1:] + PROP_Q[3:], ["L4/", "L5/"]) + H(ACK[:1], ["L5/"]),
      H(['vpH_log_limitSize_4'] + TRACK_T, ["C16/", "I-prog/"]) + H(SIZE, ["L2/", "L4/", "L5/"]) + H(T(LEAD + LEAD_HBR + LEAD_ACK + PROP[3:]), ["L2/", "L4/", "L5/"]) + H(ACK[:1], ["L5/"]),
      BQ + BT + "limitSize: <= 3 (4) entries with symbolic term/index/type/payload length, exact protobuf size model; Inflights: size <= 3 (4), every ring shape (buffer length, start, count), symbolic contents. " + OUT,
      "L1 limitSize returns the maximal non-empty prefix within the budget, L2 every MsgApp respects MaxSizePerMsg (one entry always allowed), L3 Inflights refines a bounded FIFO, L4 the in-flight window and pause rules, L5 the uncommitted-size quota.")
@@ -179,13 +183,13 @@ prop("C18",
      assumptions=COMMON[:1] + COMMON[2:3] + ["proto.Size(Entry) is the exact protobuf wire-size formula (engine intrinsic, validated by native replay)"])
 
 prop("C20",
-     H(PROP, ["P1/", "P2/", "P3/", "L5/accept"]) + H(CONF[:2], ["P1/", "P2/"]),
+     H(PROP_Q, ["P1/", "P2/", "P3/", "L5/accept"]) + H(CONF[:2], ["P1/", "P2/"]),
      H(T(PROP), ["P1/", "P2/", "P3/", "L5/accept"]) + H(CONF[:2] + ['vpH_conf_Propose_3'], ["P1/", "P2/"]) + H(T(LEAD + LEAD_HBR + APP + HUP), ["M3/", "N2/"]),
      BQ + BT + "Proposals: <= 2 entries with opaque payloads of symbolic length (identity tracked). " + OUT,
      "P1 an accepted proposal appends exactly the proposed entries (payload, type, order) once, as copies, P2 a dropped proposal changes nothing, P3 non-leaders forward the same entries once or drop.")
 
 prop("C14",
-     H(VOTE + VRESP[:4] + HUP + HB + APP[:1] + SNAP[:1] + PROP + LEAD + SMALL, ["Inv/"], panics=True) + H(RAW[:1] + RAW[3:4] + RESTART + CONF[2:] + ACK[:1] + ACK[3:4], ["Inv/"], panics=True),
+     H(VOTE + VRESP[:4] + HUP + HB + APP[:1] + SNAP[:1] + PROP_Q + LEAD + LEAD_ACK_Q[:1] + SMALL, ["Inv/"], panics=True) + H(RAW[:1] + RAW[3:4] + RESTART + CONF[2:] + ACK[:1] + ACK[3:4], ["Inv/"], panics=True),
      H(T(ALL_STEP + LEAD_ACK + APP_L + SNAP_L), ["Inv/"], panics=True) + H(RAW + RAW_ADV + ['vpH_raw_Restart_3'] + CONF + ACK + TICK, ["Inv/"], panics=True) + H(LOG_T + TRACK_T, ["C18/", "C16/"], panics=True),
      BQ + BT + OUT,
      "No run of any cell ends in a panic (explicit panic, Logger.Panic*, index/slice out of range, nil dereference, nil-map write, failed type assertion, division by zero) and the representation invariant holds afterwards, under Inv, the V-* input assumptions, A-cc and the storage contract.")
